@@ -1,6 +1,6 @@
 (* C08 - enum values are exactly the accepted set.
    Statements only; every proof is `exact <lemma>`; Print Assumptions under each. *)
-From GJS Require Import Base Regex Schema GoType Gen Exec Valid ExecP GenP CoreP LevelP NestedP.
+From GJS Require Import Base IntSize Regex Schema GoType Gen Exec Valid ExecP GenP CoreP LevelP NestedP EnumP EnumObjP.
 
 (* the enum method decodes into the carrier and accepts iff reflect.DeepEqual finds the value in the table *)
 Theorem C08_non_member : forall fmt_ok env f name c w vals j,
@@ -48,3 +48,54 @@ Theorem C08_enum_objects_inhabited :
     map (fun kv => valid (fun _ _ => true) [] (fuelV 0 0) ex_enum_obj (JObj kv)) ex_enum_docs = [true; false; false; false].
 Proof. exact enum_inhabited. Qed.
 Print Assumptions C08_enum_objects_inhabited.
+
+(* integer enums (after repair d4feaa6 of D57): the table the generator builds from ANY list of numbers - fractions and numbers beyond the int
+   range included - is matched by a decoded int exactly when the int equals a listed number *)
+Theorem C08_int_enum_table : forall l tbl z, all_numbers_to_int l = Some tbl -> in_range KInt z = true ->
+  existsb (enum_eq (TInt KInt) (GI z)) tbl = existsb (json_num_eq z) l.
+Proof. exact int_enum_exact. Qed.
+Print Assumptions C08_int_enum_table.
+
+(* end to end for {"type": "integer", "enum": [...numbers...]}: generator, table, decoder against the reference semantics - the declared type
+   accepts a document iff the document is valid, for every list of numbers and every document inside the integer guard (integer literals inside
+   Go's int; any other JSON type except null) *)
+Theorem C08_int_enum_generated_exact : forall idf cf defs fmt_ok env sdefs, g_minsized cf = false ->
+  forall f fd fv self sc p ty bp x,
+  int_enum_leaf p -> Gen.gen idf cf defs (S f) MInline self false p sc = Done (ty, bp) -> int_value x ->
+  is_ok (Exec.dec fmt_ok env (S (S fd)) ty x) = Valid.valid fmt_ok sdefs (S fv) p x.
+Proof. exact int_enum_generated_exact. Qed.
+Print Assumptions C08_int_enum_generated_exact.
+
+Theorem C08_int_enum_inhabited :
+  int_enum_leaf ex_int_enum /\
+  exists ty b, Gen.gen (fun s => s) (mkCfg false false) [] 5 MInline None false ex_int_enum [69]%N = Done (ty, b) /\
+    map (fun x => (is_ok (Exec.dec (fun _ _ => true) [] 4 ty x), Valid.valid (fun _ _ => true) [] 3 ex_int_enum x))
+        [JInt 1; JInt 2; JInt 3; JStr [49]%N] = [(true, true); (false, false); (true, true); (false, false)] /\
+    Forall int_value [JInt 1; JInt 2; JInt 3; JStr [49]%N].
+Proof. exact int_enum_generated_inhabited. Qed.
+Print Assumptions C08_int_enum_inhabited.
+
+(* one object level whose properties are scalar leaves (C02_nested_objects_exact) or integer enums: accepted iff valid *)
+Theorem C08_int_enum_objects_exact : forall idf cf defs fmt_ok env sdefs, g_minsized cf = false -> g_only_models cf = false ->
+  forall f fd fv self sub s scope t bb kv,
+  scope <> [] ->
+  plain_object s -> c_types (s_con s) = [SObject] -> s_addl s = None -> s_addl_false s = false ->
+  NoDup (map fst (s_props s)) -> incl (c_required (s_con s)) (map fst (s_props s)) ->
+  NoDup (map fst (prop_names idf (s_props s))) -> (forall fname kp, In (fname, kp) (prop_names idf (s_props s)) -> fname <> []) ->
+  (forall k p, In (k, p) (s_props s) -> leaf p \/ int_enum_leaf p) ->
+  NoDup (map fst kv) ->
+  (forall k p x, In (k, p) (s_props s) -> lookup k kv = Some x ->
+     x <> JNull /\ (str_leaf p -> forall s0, x = JStr s0 -> utf8_len s0 = length s0) /\ (int_leaf p -> int_value x) /\ (arr_leaf p -> arr_value x) /\ (map_leaf p -> map_value x) /\
+     (int_enum_leaf p -> int_value x)) ->
+  Gen.gen idf cf defs (S (S (S f))) MDeclared self sub s scope = Done (t, bb) ->
+  is_ok (Exec.dec fmt_ok env (S (S (S (S fd)))) t (JObj kv)) = Valid.valid fmt_ok sdefs (S (S (S fv))) s (JObj kv).
+Proof. exact int_enum_objects_exact. Qed.
+Print Assumptions C08_int_enum_objects_exact.
+
+Theorem C08_int_enum_objects_inhabited :
+  exists t b, Gen.gen (fun s => s) (mkCfg false false) [] 5 MDeclared None false ex_ie_obj [82]%N = Done (t, b) /\
+    (forall kv, In kv ex_ie_docs ->
+       is_ok (Exec.dec (fun _ _ => true) [] 5 t (JObj kv)) = Valid.valid (fun _ _ => true) [] 4 ex_ie_obj (JObj kv)) /\
+    map (fun kv => Valid.valid (fun _ _ => true) [] 4 ex_ie_obj (JObj kv)) ex_ie_docs = [true; false; true; false; false].
+Proof. exact int_enum_objects_inhabited. Qed.
+Print Assumptions C08_int_enum_objects_inhabited.
